@@ -393,7 +393,7 @@ func encodeViaConfig(c *gen.Case, variant int) ([]byte, string, bool) {
 }
 
 func Run(r *ev.Run) {
-	r.Rule = "for each of the 128 presence patterns (six metadata keys + context present/absent) x N seeded cases: console EncoderConfig (built-in, nil and no-op sub-encoders, separators incl. multi-byte and '{', line endings) x entry x With-chain x fields; the line must be exactly the present columns (learned by running the configured sub-encoder against a recorder) joined by the separator, then separator + one valid JSON object equal to the JSON encoder's fields for the same chain, then the stack, then the line ending; distinct = distinct (pattern, config, shape)"
+	r.Rule = "for each of the 128 presence patterns (six metadata keys + context present/absent) x N seeded cases: console EncoderConfig (built-in, nil and no-op sub-encoders, separators incl. multi-byte and '{', line endings) x entry x With-chain x fields; the line must be exactly the present columns (learned by running the configured sub-encoder against a recorder) joined by the separator, then separator + one valid JSON object equal to the JSON encoder's fields for the same chain, then the stack, then the line ending; distinct = distinct (pattern, config, shape); every fourth case also through the core of a logger built by zap.Config (8 Disable*/Development combinations)"
 	per := r.N(400, 20000)
 	// other loggers of the same process keep encoding console entries of their own (other columns, other
 	// fields) on other goroutines while the judged lines are produced
